@@ -9,6 +9,8 @@
 #include <pika/assert.hpp>
 #include <pika/synchronization/detail/condition_variable.hpp>
 #include <pika/synchronization/detail/counting_semaphore.hpp>
+
+#include <pika/config/verif_hooks.hpp>
 #include <pika/thread_support/assert_owns_lock.hpp>
 
 #include <cstddef>
@@ -30,7 +32,11 @@ namespace pika::detail {
     {
         PIKA_ASSERT_OWNS_LOCK(l);
 
-        while (value_ < count) { cond_.wait(l, "counting_semaphore::wait"); }
+        while (value_ < count)
+        {
+            PIKA_VERIF_POINT(::pika::verif::sem_wait, this, static_cast<std::uint64_t>(value_));
+            cond_.wait(l, "counting_semaphore::wait");
+        }
         value_ -= count;
     }
 
@@ -42,6 +48,7 @@ namespace pika::detail {
         while (value_ < count)
         {
             // return false if unblocked by timeout expiring
+            PIKA_VERIF_POINT(::pika::verif::sem_wait_timed, this, static_cast<std::uint64_t>(value_));
             if (cond_.wait_until(l, abs_time, "counting_semaphore::wait_until") !=
                 pika::threads::detail::thread_restart_state::unknown)
             {
@@ -86,6 +93,7 @@ namespace pika::detail {
 
         // release no more threads than we get resources
         value_ += count;
+        PIKA_VERIF_POINT(::pika::verif::sem_signal_mid, this, static_cast<std::uint64_t>(value_));
         for (std::int64_t i = 0; value_ >= 0 && i < count; ++i)
         {
             // notify_one() returns false if no more threads are
